@@ -575,9 +575,9 @@ pub fn run(ctx: &Ctx) -> i32 {
         "C03" => with_fuzz(ctx, msg_family(ctx, true, "fam_msg_s2",
             "fam_msg programs with S2 method names (digits inside words, digit-only words, leading/doubled underscores); per kind `cases` documents: well-formed messages of every part and 12 classes of malformed documents derived from them (as text, incl. duplicate keys); differential oracle: wrapper accepts iff exactly one part accepts, same value, same re-encoding, same handler reached, never panics, unknown-name errors list every supported name. Non-trivial = malformed document or a name with a letter/digit boundary or leading/doubled underscore.",
             &[A_ECHO, A_NATIVE, A_DOMAIN, "the oracle never predicts a wire name: it compares the wrapper with the parts (names observed by serialising each variant)", "programs do not forward serde(rename) attributes"]), "fz_wrapper", "bytes -> JSON document from a name dictionary + structural mutations (or raw bytes) -> wrapper accepts iff exactly one part accepts, same re-encoding, exactly one handler runs, no panic; documents with duplicate keys are tolerated (recorded finding)."),
-        "C04" => msg_family(ctx, true, "fam_msg_s2",
+        "C04" => with_fuzz(ctx, msg_family(ctx, true, "fam_msg_s2",
             "fam_msg programs in which names (and often argument lists) are shared between kinds of different parts; for every handler of kind K1 `cases` well-formed K1 documents are sent to the entry point of a different kind K2 (generated entry_points::<k2> and the cw_multi_test::Contract impl); invariant: decoding fails or every handler in the call log is annotated K2. Non-trivial = the K2 entry point accepted the document and ran a handler.",
-            &[A_ECHO, A_NATIVE, A_DOMAIN, "reply entry points are covered by the reply family (C07)"]),
+            &[A_ECHO, A_NATIVE, A_DOMAIN, "reply entry points are covered by the reply family (C07)"]), "fz_entry", "bytes -> a document (raw text, or a name of any kind x a body of any handler) offered to every generated entry point of the fixture (instantiate, execute, query, sudo, migrate; names and argument lists shared between kinds): whenever an entry point accepts it exactly one handler ran, it is annotated with that entry point's kind and its wire name is the document's key; never panics."),
         "C05" => {
             let c = msg_family(ctx, true, "fam_msg_s2",
                 "(c) for every part and kind of every generated program: <ep>_messages() strictly ascending and equal, as a set, to the top-level keys obtained by serialising one value of every variant. Non-trivial = list with >=2 names or a digit-bearing name.",
@@ -671,6 +671,8 @@ pub fn run(ctx: &Ctx) -> i32 {
                 Ok(exe) => crate::c14::run(ctx, &exe, &mut out),
                 Err(e) => out.inconclusive = Some(e),
             }
+            out.rule.push_str(" || (b, E3 compile units, metamorphic) fam_msg programs in which two parts share one wire name (and some disjoint twins), each compiled in up to four declaration orders (as declared, sv::messages / interface order reversed, methods of every part reversed, both): all orders must have the same accept / reject status under cargo check (the overlap assertion is evaluated by rustc, not by the macro).");
+            crate::e3props::run_groups(ctx, "units_c14", crate::e3props::c14b_groups(ctx), &mut out);
             out
         }
         "C18" => {
